@@ -236,8 +236,8 @@ def execute(case, ctx):
                     return
                 try:
                     inst = gen.generate(**kw)
-                except ValidationError:
-                    ctx.check(not g["allow_less_jobs_than_machines"], "generate_raised", lambda: f"generator {gi} {g}: generate({kw}) raised ValidationError although fewer jobs than machines are allowed")
+                except Exception as e:  # noqa: BLE001 - any exception type is a refusal
+                    ctx.check(not g["allow_less_jobs_than_machines"], "generate_raised", lambda: f"generator {gi} {g}: generate({kw}) raised {short_exc(e)} although fewer jobs than machines are allowed")
                     ctx.probe("explicit_sizes_refused")
                 else:
                     nj, M = len(inst.jobs), len(inst.jobs[0])
